@@ -325,15 +325,129 @@ def check_api_history(ctx: Ctx, inp) -> None:
         sz.configure(replacement=sz.DEFAULT_REPLACEMENT, keys_to_sanitize=list(sz.DEFAULT_KEYS_TO_SANITIZE), sensitive_markers=list(sz.DEFAULT_SENSITIVE_MARKERS))
 
 
+# ---- sanitize_url on its own: URLs as users write them ----------------------------------------------------------
+
+URL_SENSITIVE = ["api_key", "token", "X-Auth", "password", "sessionid", "my_secret_x", "Authorization", "ACCESS_TOKEN", "apikey"]
+URL_PLAIN = ["page", "q", "id", "sort", "filter[name]", "n", "lang", "pa ge", "x.y"]
+URL_ALPHABET = "abcXYZ019 _-+%&=?#/.;:,@!$'()*~[]{}|\\^`\"<>é日\x7f"
+
+
+def _canary(draw, tag):
+    body = draw(st.text(alphabet=st.sampled_from(URL_ALPHABET), min_size=0, max_size=5))
+    return f"CN{tag}{body}RY"
+
+
+@st.composite
+def url_case(draw):
+    n = [0]
+
+    def fresh():
+        n[0] += 1
+        return _canary(draw, n[0])
+
+    query = []
+    for _ in range(draw(st.integers(0, 5))):
+        sensitive = draw(st.booleans())
+        name = draw(st.sampled_from(URL_SENSITIVE if sensitive else URL_PLAIN))
+        query.append([name, draw(st.sampled_from(["", "plain"])) if draw(st.integers(0, 5)) == 0 else fresh(), sensitive])
+    userinfo = draw(st.sampled_from([None, None, "user-only", "user:password", "user:password", "raw-at-in-password"]))
+    return {
+        "userinfo": userinfo,
+        "user": fresh() if userinfo else None,
+        "password": fresh() if userinfo and userinfo != "user-only" else None,
+        "host": draw(st.sampled_from(["127.0.0.1:8080", "example.com", "[::1]:9000", "api.example.com:443"])),
+        "path": draw(st.sampled_from(["", "/", "/v1/items", "/a b/%41", "/it's", "/x;y=1"])),
+        "scheme": draw(st.sampled_from(["http", "https"])),
+        "query": query,
+    }
+
+
+def check_url(ctx: Ctx, inp) -> None:
+    """sanitize_url(url): userinfo and the values of credential-like query parameters are gone in every spelling, everything
+    else (host, path, the other parameters and their values) is the same URL."""
+    from urllib.parse import parse_qsl, quote_plus, urlsplit
+
+    from schemathesis.core.output import sanitization as sz
+
+    sz.configure(replacement=sz.DEFAULT_REPLACEMENT, keys_to_sanitize=list(sz.DEFAULT_KEYS_TO_SANITIZE), sensitive_markers=list(sz.DEFAULT_SENSITIVE_MARKERS))
+    netloc = inp["host"]
+    if inp["userinfo"] == "user-only":
+        netloc = f"{quote(inp['user'], safe='')}@{netloc}"
+    elif inp["userinfo"] == "user:password":
+        netloc = f"{quote(inp['user'], safe='')}:{quote(inp['password'], safe='')}@{netloc}"
+    elif inp["userinfo"] == "raw-at-in-password":
+        # what people type: reserved characters left as they are (only the ones that would end the authority are escaped)
+        raw = "".join(c if c not in "/?#[] \\" and 32 < ord(c) < 127 else quote(c, safe="") for c in f"{inp['user']}:{inp['password']}@tail")
+        netloc = f"{raw}@{netloc}"
+    qs = "&".join(f"{quote_plus(k)}={quote_plus(v)}" for k, v, _ in inp["query"])
+    url = f"{inp['scheme']}://{netloc}{quote(inp['path'], safe='/;=%')}" + (f"?{qs}" if qs else "")
+    out = sz.sanitize_url(url)
+    ctx.case(nontrivial=inp if (inp["userinfo"] or any(s for _, _, s in inp["query"])) else None, classes=[f"userinfo={inp['userinfo']}", f"sensitive-params={sum(1 for *_, s in inp['query'] if s)}", f"plain-params={sum(1 for *_, s in inp['query'] if not s)}"], sample={"url": url, "sanitized": out})
+    secrets = [inp[k] for k in ("user", "password") if inp.get(k) and not (k == "user" and inp["userinfo"] == "user-only" and False)]
+    secrets += [v for _, v, s in inp["query"] if s and v.startswith("CN")]
+    for secret in secrets:
+        for form in {secret, quote(secret, safe=""), quote_plus(secret), quote(secret)}:
+            if form in out:
+                kind = "userinfo" if secret in (inp.get("user"), inp.get("password")) else "query"
+                ctx.disagree(f"url:leak:{kind}" + (f":{inp['userinfo']}" if kind == "userinfo" else ""), f"{form!r} survives: {url!r} -> {out!r}", input=inp)
+    # the marker `[Filtered]@` makes the authority unparseable for urlsplit (brackets announce an IPv6 literal): compare without it
+    a, b = urlsplit(url), urlsplit(out.replace(sz.DEFAULT_REPLACEMENT + "@", "", 1))
+    if (a.scheme, a.hostname, a.port, a.path) != (b.scheme, b.hostname, b.port, b.path):
+        ctx.disagree("url:changed-outside-the-secrets", f"scheme/host/port/path differ: {url!r} -> {out!r}", input=inp)
+    got: dict = {}
+    for k, v in parse_qsl(b.query, keep_blank_values=True):
+        got.setdefault(k, []).append(v)
+    want: dict = {}
+    for k, v, s in inp["query"]:
+        want.setdefault(k, []).append(sz.DEFAULT_REPLACEMENT if s else v)
+    sensitive_names = {k for k, _, s in inp["query"] if s}
+    # sensitive names: present, every value is the marker (how many times a repeated name is written is not asked);
+    # all other names: the same values
+    plain_got = {k: sorted(v) for k, v in got.items() if k not in sensitive_names}
+    plain_want = {k: sorted(v) for k, v in want.items() if k not in sensitive_names}
+    if plain_got != plain_want:
+        ctx.disagree("url:non-sensitive-parameters-changed", f"query {got} expected {want}: {url!r} -> {out!r}", input=inp)
+    for k in sensitive_names:
+        if k not in got or any(v != sz.DEFAULT_REPLACEMENT for v in got[k]):
+            ctx.disagree("url:sensitive-parameter-not-replaced-by-the-marker", f"{k}: {got.get(k)} in {out!r} (from {url!r})", input=inp)
+
+
+def decode_url(data: bytes):
+    """atheris entry: bytes -> the same input shape as ``url_case``."""
+    import atheris
+
+    fdp = atheris.FuzzedDataProvider(data)
+
+    def canary(i):
+        return f"CN{i}" + "".join(URL_ALPHABET[fdp.ConsumeIntInRange(0, len(URL_ALPHABET) - 1)] for _ in range(fdp.ConsumeIntInRange(0, 5))) + "RY"
+
+    query = []
+    for i in range(fdp.ConsumeIntInRange(0, 5)):
+        sensitive = fdp.ConsumeBool()
+        names = URL_SENSITIVE if sensitive else URL_PLAIN
+        query.append([names[fdp.ConsumeIntInRange(0, len(names) - 1)], canary(i), sensitive])
+    userinfo = [None, "user-only", "user:password", "raw-at-in-password"][fdp.ConsumeIntInRange(0, 3)]
+    return {"userinfo": userinfo, "user": canary(7) if userinfo else None, "password": canary(8) if userinfo and userinfo != "user-only" else None,
+            "host": ["127.0.0.1:8080", "example.com", "[::1]:9000"][fdp.ConsumeIntInRange(0, 2)], "path": ["", "/", "/v1/items", "/a b/%41", "/it's"][fdp.ConsumeIntInRange(0, 4)], "scheme": "http", "query": query}
+
+
+def run_fuzz_url(ctx, spec):
+    from vfw import core
+
+    core.run_atheris(ctx, dict(spec, replay_sub="sanitize_url"), "sanitize_url", check_url, 30000 if ctx.tier == "quick" else 1500000)
+
+
 SUBS = [
+    Sub("fuzz_sanitize_url", runner=run_fuzz_url, quick=(1, 0), thorough=(4, 0), timeout_quick=300, timeout_thorough=3000),
+    Sub("sanitize_url", fn=check_url, strategy=url_case, quick=(4, 1500), thorough=(16, 40000), timeout_quick=300, timeout_thorough=3000),
     Sub("api_history", fn=check_api_history, strategy=api_history, quick=(4, 400), thorough=(16, 6000), timeout_quick=300, timeout_thorough=3000),
     Sub("secrets", collect=True, fn=check_secrets, strategy=secret_case, quick=(16, 3), thorough=(16, 120), shrink_quick=False, timeout_quick=600, timeout_thorough=3400),
 ]
-FLOOR = {"secrets": 30, "api_history": 1000}
+FLOOR = {"secrets": 30, "api_history": 1000, "sanitize_url": 3000}
 
 MANIFEST = {
     "category": "exploration",
     "technique": "Hypothesis-generated configuration histories against a reference model of the sanitisation configuration + information-flow search: unique canary secrets planted on every configuration route of a real `st run` subprocess, all artefacts searched for raw / base64 / percent-encoded forms; control canaries prove the search is not vacuous",
-    "text": "Histories of sanitization.configure()/extend() calls interleaved with outputs (sanitize_value, sanitize_url, case.as_curl_command with credentials from auth providers and requests auth objects) are judged against a reference model of the key / marker / replacement configuration in force: sensitive names are redacted with the configured marker, all others are printed. Generated configurations plant canaries in -H headers under sensitive spellings and under control names, --auth, URL userinfo, --set-query/-cookie/-header, server-side Set-Cookie and token headers, and under a custom key added through schemathesis.sanitization.extend in a hooks module; the API fails (and for some requests drops the connection or answers after the read timeout) so that reproduction commands and responses are printed; stdout, stderr, JUnit, VCR and HAR are searched. With sanitisation on no sensitive canary may appear in any form while control canaries must; with sanitisation off the sensitive ones appear.",
+    "text": "sanitize_url is run on URLs as users write them (userinfo with reserved characters incl. a raw `@`, repeated / blank / percent-encoded query values; Hypothesis and an atheris target): userinfo and the values of credential-like parameters must be gone in every spelling while host, path and the other parameters are unchanged. Histories of sanitization.configure()/extend() calls interleaved with outputs (sanitize_value, sanitize_url, case.as_curl_command with credentials from auth providers and requests auth objects) are judged against a reference model of the key / marker / replacement configuration in force: sensitive names are redacted with the configured marker, all others are printed. Generated configurations plant canaries in -H headers under sensitive spellings and under control names, --auth, URL userinfo, --set-query/-cookie/-header, server-side Set-Cookie and token headers, and under a custom key added through schemathesis.sanitization.extend in a hooks module; the API fails (and for some requests drops the connection or answers after the read timeout) so that reproduction commands and responses are printed; stdout, stderr, JUnit, VCR and HAR are searched. With sanitisation on no sensitive canary may appear in any form while control canaries must; with sanitisation off the sensitive ones appear.",
     "note": "The schema is loaded from a local file. Only the routes listed are planted; generated security parameters are not canaries.",
 }
